@@ -160,6 +160,89 @@ example : ∀ f ∈ fins exOps, BlockOK exOrigin f := by
 block's dead nodes are then never pruned — a leak, never a loss -/
 example : ((({} : DB).finalize ⟨5, [], ["x"], []⟩).finalize ⟨5, [], ["y"], []⟩).deadRec = [(5, ["y"])] := by decide
 
+/-! ## forks: a finalized block is rolled back and its round is finalized again -/
+
+inductive FOp where
+  | fin (f : Fin)
+  | prune (v : Nat)
+  | rollback (r : Nat)
+deriving Repr
+
+def DB.stepF (d : DB) : FOp → DB
+  | .fin f => d.finalize f
+  | .prune v => (d.pruneBelow v).1
+  | .rollback r => d.rollback r
+
+/-- run a history with roll-backs, NEWEST operation first -/
+def runF : List FOp → DB
+  | [] => {}
+  | op :: older => (runF older).stepF op
+
+/-- the block finalized LAST for a round (newest-first history) -/
+def lastFin : List FOp → Nat → Option Fin
+  | [], _ => none
+  | .fin f :: older, q => if f.round = q then some f else lastFin older q
+  | _ :: older, q => lastFin older q
+
+/-- **the dead-node record of a round is that of the block finalized LAST for the round** — for every history of
+finalizations, prunes and roll-backs. In particular a re-finalization of a round OVERWRITES the record the
+rolled-back block of that round left, also when the new block deleted nothing (its record is empty): the stale
+record never survives. -/
+theorem deadRec_is_last_finalized (ops : List FOp) :
+    ∀ e ∈ (runF ops).deadRec, ∃ f, lastFin ops e.1 = some f ∧ f.dead = e.2 := by
+  induction ops with
+  | nil => intro e he; simp [runF] at he
+  | cons op older ih =>
+    intro e he
+    cases op with
+    | fin f =>
+      simp only [runF, DB.stepF, DB.finalize] at he
+      rcases List.mem_cons.mp he with rfl | he'
+      · exact ⟨f, by simp [lastFin], rfl⟩
+      · have hm := List.mem_filter.mp he'
+        have hne : ¬ f.round = e.1 := by
+          intro h; have := hm.2; simp [h] at this
+        obtain ⟨g, hg, hd⟩ := ih e hm.1
+        exact ⟨g, by simp [lastFin, hne, hg], hd⟩
+    | prune v =>
+      simp only [runF, DB.stepF, DB.pruneBelow] at he
+      obtain ⟨g, hg, hd⟩ := ih e (List.mem_filter.mp he).1
+      exact ⟨g, by simpa [lastFin] using hg, hd⟩
+    | rollback r =>
+      simp only [runF, DB.stepF, DB.rollback] at he
+      obtain ⟨g, hg, hd⟩ := ih e he
+      exact ⟨g, by simpa [lastFin] using hg, hd⟩
+
+/-- one record per round: right after finalizing `f`, the records of its round are exactly `[(f.round, f.dead)]`,
+whatever was recorded for that round before and also when `f.dead = []` -/
+theorem finalize_overwrites_round_record (d : DB) (f : Fin) :
+    (d.finalize f).deadRec.filter (fun e => e.1 == f.round) = [(f.round, f.dead)] := by
+  simp only [DB.finalize, List.filter_cons, beq_self_eq_true, if_true, List.filter_filter]
+  congr 1
+  apply List.filter_eq_nil_iff.mpr
+  intro e _ h
+  simp only [Bool.and_eq_true, bne_iff_ne, ne_eq, beq_iff_eq] at h
+  exact h.2 h.1
+
+/-- the counterfactual `finalizeBlock` that skips `RecordDeadNodes` when the block deleted nothing -/
+def DB.finalizeSkipEmpty (d : DB) (f : Fin) : DB :=
+  if f.dead.isEmpty then { d.finalize f with deadRec := d.deadRec } else d.finalize f
+
+/-- **why the overwrite must happen even for an empty block**. Round 7 holds `R7 → {a}`; block A8 rewrites `a`
+(records `R7, a` dead at round 8) and is rolled back; the winning fork's B8 is EMPTY (state still `R7 → {a}`), B9
+follows; prune below 9. With the real `finalize` the retained blocks 8 and 9 read back; if the empty B8 left A8's
+record in place, the pruner deletes `R7` and `a`, which B8 and B9 still reference. -/
+theorem stale_record_of_rolled_back_block_unsafe :
+    let a8 : Fin := ⟨8, ["R8", "a'"], ["R7", "a"], ["R8", "a'"]⟩
+    let b8 : Fin := ⟨8, [], [], ["R7", "a"]⟩
+    let b9 : Fin := ⟨9, ["R9", "b"], ["R7"], ["R9", "a", "b"]⟩
+    let start : DB := ({} : DB).finalize ⟨7, ["R7", "a"], [], ["R7", "a"]⟩
+    (((((start.finalize a8).rollback 7).finalize b8).finalize b9).pruneBelow 9).1.check 9 = some true ∧
+    (((((start.finalize a8).rollback 7).finalize b8).finalize b9).pruneBelow 9).1.check 8 = some true ∧
+    (((((start.finalize a8).rollback 7).finalizeSkipEmpty b8).finalize b9).pruneBelow 9).1.check 9 = some false ∧
+    (((((start.finalize a8).rollback 7).finalizeSkipEmpty b8).finalize b9).pruneBelow 9).1.check 8 = some false := by
+  refine ⟨by decide, by decide, by decide, by decide⟩
+
 /-! ## the change collector -/
 
 /-- **AddChange clears a pending delete** of the node it (re-)creates: a value deleted and re-created identically
